@@ -150,15 +150,15 @@ Proof.
   destruct I as (u & _ & I). apply in_map_iff in I. destruct I as (c & <- & _). apply ctor_name_like.
 Qed.
 
-Lemma compile_funs_lookup : forall fs k f ps b,
-  lookup f fs = Some (ps, b) -> exists k', lookup f (compile_funs k fs) = Some (ps, compile_block k' b).
+Lemma compile_funs_lookup d : forall fs k f ps b,
+  lookup f fs = Some (ps, b) -> exists k', lookup f (compile_funs d k fs) = Some (ps, compile_block d k' b).
 Proof.
   induction fs as [|[g [qs c]] fs IH]; intros k f ps b L; cbn in L; [discriminate|].
   cbn. destruct (String.eqb f g).
   - inversion L; subst. eauto.
   - apply IH; exact L.
 Qed.
-Lemma compile_funs_names : forall fs k, map fst (compile_funs k fs) = map fst fs.
+Lemma compile_funs_names d : forall fs k, map fst (compile_funs d k fs) = map fst fs.
 Proof. induction fs as [|[g [qs c]] fs IH]; intros k; cbn; [reflexivity|]. f_equal; apply IH. Qed.
 
 Lemma lookup_in {A} x (l:list (var * A)) v : lookup x l = Some v -> In (x, v) l.
@@ -169,22 +169,24 @@ Qed.
 
 (** ** the context of a program *)
 Section Prog.
+Variable d : dialect.
+Variable start : nat.      (* value of the temporary counter when emission begins *)
 Variable p : prog.
 Hypothesis Hp : pap_args_pure p.
 
 Definition ok := ctor_declared (p_unions p).
-Definition gfuncs := g_funcs (compile_prog p).
-Definition gvars := g_vars (compile_prog p).
+Definition gfuncs := g_funcs (compile_prog_d d start p).
+Definition gvars := g_vars (compile_prog_d d start p).
 
 Lemma prog_funs : forall f ps b, lookup f (p_funs p) = Some (ps, b) ->
-  exists k, lookup f gfuncs = Some (ps, compile_block k b) /\
+  exists k, lookup f gfuncs = Some (ps, compile_block d k b) /\
             Forall (fun x => reserved x = false) ps /\ wfb true ok b.
 Proof.
   destruct Hp as (Nd & Wf & Wm). intros f ps b L.
   pose proof (lookup_in _ _ _ L) as I. rewrite Forall_forall in Wf.
   destruct (Wf _ I) as (Rf & Rps & Wb). cbn in Rf, Rps, Wb.
-  destruct (compile_funs_lookup _ 0 _ _ _ L) as (k & Lk). exists k. repeat split; auto.
-  unfold gfuncs, compile_prog; cbn [g_funcs]. rewrite lookup_app.
+  destruct (compile_funs_lookup d _ start _ _ _ L) as (k & Lk). exists k. repeat split; auto.
+  unfold gfuncs, compile_prog_d; cbn [g_funcs]. rewrite lookup_app.
   rewrite lookup_notin; [exact Lk|].
   intros I2. apply ctor_funcs_ctor_like in I2. destruct (reserved_false _ Rf). congruence.
 Qed.
@@ -192,7 +194,7 @@ Qed.
 Lemma prog_ctor1 : forall u c, ok u c true -> lookup (ctor_name u c) gfuncs = Some (ctor_func_body u c).
 Proof.
   destruct Hp as (Nd & Wf & Wm). intros u c (cases & Iu & Ic).
-  unfold gfuncs, compile_prog; cbn [g_funcs]. rewrite lookup_app.
+  unfold gfuncs, compile_prog_d; cbn [g_funcs]. rewrite lookup_app.
   rewrite (all_unions_func _ _ _ _ Nd Iu Ic). reflexivity.
 Qed.
 
@@ -202,36 +204,36 @@ Lemma prog_ctor0 : forall u c, ok u c false ->
 Proof.
   destruct Hp as (Nd & Wf & Wm). intros u c (cases & Iu & Ic).
   destruct (all_unions_var _ _ _ _ Nd Iu Ic) as (L & NI). split; [|exact L].
-  unfold gfuncs, compile_prog; cbn [g_funcs]. rewrite lookup_app.
+  unfold gfuncs, compile_prog_d; cbn [g_funcs]. rewrite lookup_app.
   rewrite (lookup_notin _ _ NI). apply lookup_notin. rewrite compile_funs_names.
-  intros I. apply in_map_iff in I. destruct I as ([g d] & Eg & I). cbn in Eg; subst g.
+  intros I. apply in_map_iff in I. destruct I as ([g dd] & Eg & I). cbn in Eg; subst g.
   rewrite Forall_forall in Wf. destruct (Wf _ I) as (Rf & _). cbn in Rf.
   destruct (reserved_false _ Rf) as (_ & C). rewrite ctor_name_like in C. discriminate.
 Qed.
 
-Definition prog_sims (n:nat) := sim_all ok (p_funs p) gfuncs gvars prog_funs prog_ctor1 prog_ctor0 n.
+Definition prog_sims (n:nat) := sim_all d ok (p_funs p) gfuncs gvars prog_funs prog_ctor1 prog_ctor0 n.
 
 (** the compiled program produces the source's output, at every sufficiently large fuel *)
-Lemma compile_correct_eventually n out :
-  run_src n p = ODone out -> exists m0, forall m, m0 <= m -> run_go m (compile_prog p) = ODone out.
+Lemma compile_correct_eventually_d n out :
+  run_src n p = ODone out -> exists m0, forall m, m0 <= m -> run_go m (compile_prog_d d start p) = ODone out.
 Proof.
   intros R. unfold run_src in R.
   destruct (eval_block (p_funs p) n [] (p_main p) []) as [v t| |] eqn:Ev; try discriminate.
   inversion R; subst.
   destruct Hp as (Nd & Wf & Wm).
-  destruct (sim_block ok (p_funs p) gfuncs gvars prog_funs prog_ctor1 prog_ctor0 n [] [] (p_main p) [] v t
-              (nvfuns (p_funs p)) Wm (erel_nil ok gfuncs) Ev) as (o & (m & Hm) & _).
+  destruct (sim_block d ok (p_funs p) gfuncs gvars prog_funs prog_ctor1 prog_ctor0 n [] [] (p_main p) [] v t
+              (start + nvfuns d (p_funs p)) Wm (erel_nil d ok gfuncs) Ev) as (o & (m & Hm) & _).
   exists (S m). intros m1 Hle. destruct m1 as [|m1]; [lia|].
   unfold run_go. cbn [MiniGo.gapply bind].
-  change (g_funcs (compile_prog p)) with gfuncs. change (g_vars (compile_prog p)) with gvars.
-  change (g_main (compile_prog p)) with (compile_block (nvfuns (p_funs p)) (p_main p)).
+  change (g_funcs (compile_prog_d d start p)) with gfuncs. change (g_vars (compile_prog_d d start p)) with gvars.
+  change (g_main (compile_prog_d d start p)) with (compile_block d (start + nvfuns d (p_funs p)) (p_main p)).
   rewrite (Hm m1) by lia. reflexivity.
 Qed.
 
 Notation wfe' := (wfe true ok).
 Notation wfb' := (wfb true ok).
-Notation vrel' := (vrel ok gfuncs).
-Notation erel' := (erel ok gfuncs).
+Notation vrel' := (vrel d ok gfuncs).
+Notation erel' := (erel d ok gfuncs).
 Notation Geval' := (Geval gfuncs gvars).
 Notation Gevals' := (Gevals gfuncs gvars).
 
@@ -239,11 +241,11 @@ Notation Gevals' := (Gevals gfuncs gvars).
 
 (** only the taken branch of an [if] runs: whatever the other branch is (it may print, loop or be stuck),
     the emitted [frt.IfElse(c, func…, func…)] produces the condition's effects followed by the taken branch's *)
-Lemma untaken_branch_silent n senv genv c bt bf t (cv:bool) t1 v t2 k :
+Lemma untaken_branch_silent_d n senv genv c bt bf t (cv:bool) t1 v t2 k :
   wfe' (EIf c bt bf) -> erel' senv genv ->
   eval (p_funs p) n senv c t = Done (VBool cv) t1 ->
   eval_block (p_funs p) n senv (if cv then bt else bf) t1 = Done v t2 ->
-  exists gv, Geval' genv (compile k (EIf c bt bf)) t gv t2 /\ vrel' v gv.
+  exists gv, Geval' genv (compile d k (EIf c bt bf)) t gv t2 /\ vrel' v gv.
 Proof.
   intros W E Hc Hb. destruct (prog_sims (S n)) as (IE & _).
   apply (IE senv genv (EIf c bt bf) t v t2 k W E).
@@ -251,10 +253,10 @@ Proof.
 Qed.
 
 (** [&&] and [||] evaluate their right operand only when needed *)
-Lemma short_circuit n senv genv a b t t1 k (is_and:bool) :
+Lemma short_circuit_d n senv genv a b t t1 k (is_and:bool) :
   wfe' (EBin (if is_and then OAnd else OOr) a b) -> erel' senv genv ->
   eval (p_funs p) n senv a t = Done (VBool (negb is_and)) t1 ->
-  Geval' genv (compile k (EBin (if is_and then OAnd else OOr) a b)) t (GVBool (negb is_and)) t1.
+  Geval' genv (compile d k (EBin (if is_and then OAnd else OOr) a b)) t (GVBool (negb is_and)) t1.
 Proof.
   intros W E Ha. destruct (prog_sims (S n)) as (IE & _).
   destruct (IE senv genv (EBin (if is_and then OAnd else OOr) a b) t (VBool (negb is_and)) t1 k W E) as (gv & G & V).
@@ -263,14 +265,14 @@ Proof.
 Qed.
 
 (** a union match runs the arm of the constructor the value was built with (and only that arm) *)
-Lemma match_dispatches_to_constructor n senv genv e u arms def t c payload t1 bx b v t2 k :
+Lemma match_dispatches_to_constructor_d n senv genv e u arms def t c payload t1 bx b v t2 k :
   wfe' (EMatchU e u arms def) -> erel' senv genv ->
   eval (p_funs p) n senv e t = Done (VUnion u c payload) t1 ->
   find_arm c arms = Some (bx, b) ->
   eval_block (p_funs p) n
     (match bx, payload with Some x, Some pv => (x, pv) :: senv | _, _ => senv end) b t1 = Done v t2 ->
   (bx <> None -> payload <> None) ->
-  exists gv, Geval' genv (compile k (EMatchU e u arms def)) t gv t2 /\ vrel' v gv.
+  exists gv, Geval' genv (compile d k (EMatchU e u arms def)) t gv t2 /\ vrel' v gv.
 Proof.
   intros W E He Fa Hb Hpay. destruct (prog_sims (S n)) as (IE & _).
   apply (IE senv genv (EMatchU e u arms def) t v t2 k W E).
@@ -281,10 +283,10 @@ Qed.
 
 (** operands, arguments and components are evaluated left to right: the emitted argument list produces the
     trace of the source's left-to-right evaluation *)
-Lemma effects_in_source_order n senv genv es t vs t' k :
+Lemma effects_in_source_order_d n senv genv es t vs t' k :
   Forall wfe' es -> erel' senv genv ->
   evals (p_funs p) n senv es t = Done vs t' ->
-  exists gvs, Gevals' genv (compile_list k es) t gvs t' /\ Forall2 vrel' vs gvs.
+  exists gvs, Gevals' genv (compile_list d k es) t gvs t' /\ Forall2 vrel' vs gvs.
 Proof.
   intros W E H. destruct (prog_sims n) as (_ & IEs & _).
   destruct (IEs senv genv es t vs t' k W E H) as (gvs & Vs & G).
@@ -293,6 +295,14 @@ Proof.
 Qed.
 
 End Prog.
+
+(** ** fc *)
+Definition fc_gfuncs (p:prog) := gfuncs DFc 0 p.
+Definition fc_gvars (p:prog) := gvars DFc 0 p.
+
+Lemma compile_correct_eventually p (Hp:pap_args_pure p) n out :
+  run_src n p = ODone out -> exists m0, forall m, m0 <= m -> run_go m (compile_prog p) = ODone out.
+Proof. exact (compile_correct_eventually_d DFc 0 p Hp n out). Qed.
 
 (** ** the theorem *)
 Theorem compile_correct_partial : forall p n out,
